@@ -24,19 +24,45 @@ impl Check for C07 {
     }
     fn lanes(&self, tier: Tier) -> Vec<(&'static str, usize, usize)> {
         match tier {
-            Tier::Quick => vec![("lift", 1200, 400)],
-            Tier::Thorough => vec![("lift", 100_000, 500)],
+            Tier::Quick => vec![("lift", 1200, 400), ("tr-mixed", 500, 400), ("consts", 700, 400)],
+            Tier::Thorough => vec![("lift", 100_000, 500), ("tr-mixed", 40_000, 500), ("consts", 60_000, 500)],
         }
     }
-    fn run_case(&self, _lane: &str, src: &mut Src, rep: &mut Report) -> Result<(), Failure> {
-        let kind = pick_kind(src);
+    fn run_case(&self, lane: &str, src: &mut Src, rep: &mut Report) -> Result<(), Failure> {
+        // lane tr-mixed: taproot trees whose leaves are full of time locks of both units (a leaf
+        // that combines them cannot be lifted; the tree's policy must then not silently omit it);
+        // lane consts: consensus-valid scripts with many 0/1 constants (or_i(1,X), andor(X,Y,1),
+        // thresh over constants: the policy normaliser has to fold them correctly)
+        let mut kind = pick_kind(src);
         let size = src.range(1, 7);
-        let insane = src.chance(1, 3);
+        let mut insane = src.chance(1, 3);
+        if lane == "tr-mixed" {
+            kind = gen::DescKind::TrTree;
+            insane = true;
+        }
+        if lane == "consts" {
+            insane = true;
+            if matches!(kind, gen::DescKind::Pkh | gen::DescKind::Wpkh | gen::DescKind::ShWpkh | gen::DescKind::TrKey | gen::DescKind::Bare) {
+                kind = gen::DescKind::Wsh;
+            }
+        }
         let d = gen::gen_desc(src, kind, &|ctx| {
             let mut c = if insane { Cfg::new(ctx, size) } else { Cfg::sane(ctx, size) };
             c.key_style = KeyStyle::Rich;
             c.allow_uncompressed = true;
             c.max_thresh_n = 3;
+            if lane == "tr-mixed" {
+                c.leaf_w = [4, 1, 6];
+                c.allow_const = false;
+                c.alternate_units = true;
+                c.size = c.size.max(4) * 2;
+                c.key_style = KeyStyle::Hex;
+            }
+            if lane == "consts" {
+                c.leaf_w = [4, 1, 5];
+                c.const_chance = 7;
+                c.key_style = KeyStyle::Hex;
+            }
             c
         });
         let sugar = src.bool();
